@@ -51,7 +51,8 @@ type hsCase struct {
 	ID      int `json:"id,omitempty"` // index into c19IDs
 	// VH: 0 = the virtual host is a well-formed host:port address (a client address containing ':' is bracketed);
 	// 1 = the net.Addr the REAL handshakeSessionHandler stores for the client's Handshake{ServerAddress, Port}
-	VH int `json:"vh,omitempty"`
+	VH   int `json:"vh,omitempty"`
+	Port int `json:"port,omitempty"` // index into c19Ports: the port of the client's handshake
 }
 
 var (
@@ -85,15 +86,20 @@ var (
 		{},
 		{{Name: "textures", Value: "ewogICJ0aW1lc3RhbXAiIDogMTcwMH0=", Signature: "c2lnbmF0dXJl"}},
 		{{Name: "te\"xt\\ures", Value: "vä✓lue <&> \u2028"}, {Name: "second", Value: "", Signature: "sig\"2"}},
+		// a real Mojang profile: ~1.2 KiB base64 value, 684-character signature (the address exceeds 2 KiB)
+		{{Name: "textures", Value: strings.Repeat("ewogICJ0aW1lc3RhbXAi", 60), Signature: strings.Repeat("c2lnbmF0dXJl+/=A", 43)[:684]}},
+		// several properties, repeated names, ~20 KiB in total
+		{{Name: "textures", Value: strings.Repeat("QUJD", 4000), Signature: strings.Repeat("U0lH", 170)}, {Name: "textures", Value: "second-with-the-same-name"}, {Name: "forgeClient", Value: "true"}, {Name: "p4", Value: strings.Repeat("x", 3000)}, {Name: "p5", Value: ""}},
 	}
 	c19IPs      = []net.Addr{&net.TCPAddr{IP: net.IPv4(203, 0, 113, 7), Port: 50123}, &net.TCPAddr{IP: net.ParseIP("2001:db8::8a2e:370:7334"), Port: 50124}, netutil.NewAddr("198.51.100.9:40000", "tcp"), netutil.NewAddr("[2001:db8::77]:40001", "tcp")}
 	c19IPHosts  = []string{"203.0.113.7", "2001:db8::8a2e:370:7334", "198.51.100.9", "2001:db8::77"}
+	c19Ports    = []int{25565, 19132, 1, 65535, 0}
 	c19Backends = []string{"127.0.0.1:25566", "backend.internal:25565", "[2001:db8::2]:25565"}
 	c19Secrets  = []string{"tok3n", "s\"e\\c✓ret"}
 	c19ID       = uuid.UUID{0x12, 0x34, 0x56, 0x78, 0x9a, 0xbc, 0x4d, 0xef, 0x80, 0x12, 0x34, 0x56, 0x78, 0x9a, 0xbc, 0xde}
 	// ids whose undashed form has leading zeros / zero groups (an integer-style formatter would drop them)
-	c19IDs = []uuid.UUID{c19ID, {0x00, 0x00, 0x0a, 0xbc, 0x00, 0x00, 0x30, 0x01, 0x80, 0x00, 0x00, 0x00, 0x00, 0x00, 0x00, 0x07}, {0xff, 0xff, 0xff, 0xff, 0xff, 0xff, 0x4f, 0xff, 0xbf, 0xff, 0xff, 0xff, 0xff, 0xff, 0xff, 0xff}}
-	errC19Hook  = errors.New("backend addresser failed")
+	c19IDs     = []uuid.UUID{c19ID, {0x00, 0x00, 0x0a, 0xbc, 0x00, 0x00, 0x30, 0x01, 0x80, 0x00, 0x00, 0x00, 0x00, 0x00, 0x00, 0x07}, {0xff, 0xff, 0xff, 0xff, 0xff, 0xff, 0x4f, 0xff, 0xbf, 0xff, 0xff, 0xff, 0xff, 0xff, 0xff, 0xff}}
+	errC19Hook = errors.New("backend addresser failed")
 )
 
 type hookServerInfo struct {
@@ -189,7 +195,7 @@ func check(r *vrt.R, c hsCase) {
 	r.Eval(1)
 	clientAddr := c19Hosts[c.Host]
 	pv := c19Protos[c.Proto]
-	hs := &packet.Handshake{ProtocolVersion: int(pv.Protocol), ServerAddress: clientAddr, Port: 25565, NextStatus: 2}
+	hs := &packet.Handshake{ProtocolVersion: int(pv.Protocol), ServerAddress: clientAddr, Port: c19Ports[c.Port], NextStatus: 2}
 	var ct phase.ConnectionType
 	switch c.Type {
 	case 0:
@@ -201,9 +207,10 @@ func check(r *vrt.R, c hsCase) {
 	}
 	r.Class("conn-type:" + ctName(ct))
 	// the virtual host as a well-formed host:port address (IPv6 literals bracketed)
-	vh := clientAddr + ":25565"
+	portStr := strconv.Itoa(c19Ports[c.Port])
+	vh := clientAddr + ":" + portStr
 	if strings.Contains(clientAddr, ":") && c.VH == 0 {
-		vh = net.JoinHostPort(clientAddr, "25565")
+		vh = net.JoinHostPort(clientAddr, portStr)
 	}
 
 	cfg := &config.Config{Forwarding: config.Forwarding{Mode: c19Modes[c.Mode], BungeeGuardSecret: c19Secrets[c.Secret], VelocitySecret: "v"}}
@@ -233,7 +240,7 @@ func check(r *vrt.R, c hsCase) {
 			return
 		}
 		vhAddr = lh.inbound.VirtualHost()
-		r.Class("virtual-host-from-the-real-handshake-handler(client address contains ':')")
+		r.Class("virtual-host-from-the-real-handshake-handler")
 	}
 	player := &connectedPlayer{
 		MinecraftConn:      client,
@@ -310,7 +317,7 @@ func oneRound(r *vrt.R, c hsCase, round int, player *connectedPlayer, p *Proxy, 
 			return false
 		}
 		want := firstPart(clientAddr)
-		if got := firstPart(addr); got != want && c.VH == 1 && got == want+":25565" {
+		if got := firstPart(addr); got != want && c.VH == 1 && got == want+":"+strconv.Itoa(c19Ports[c.Port]) {
 			r.Violation("host-first/port-glued-to-host-containing-colon", fmt.Sprintf("%s: the handshake handler stores the virtual host %q; the backend handshake address %q starts with %q, the player's host is %q", c, player.virtualHost.String(), addr, got, want), c)
 			return false
 		} else if got != want {
@@ -432,18 +439,21 @@ func TestVerif(t *testing.T) {
 												continue
 											}
 											for id := range c19IDs {
-												nz := 0
-												for _, v := range []int{pr, ip, be, se, id} {
-													if v > 0 {
-														nz++
+												for po := range c19Ports {
+													nz := 0
+													for _, v := range []int{pr, ip, be, se, id, po} {
+														if v > 0 {
+															nz++
+														}
 													}
-												}
-												if r.Quick() && nz > 1 {
-													continue // quick: <=1 deviation among props/ip/backend/secret/uuid
-												}
-												check(r, hsCase{Host: hi, Proto: pi, Type: ty, Mode: mi, Hook: ki, Props: pr, IP: ip, Backend: be, Secret: se, ID: id})
-												if nz == 0 && strings.Contains(c19Hosts[hi], ":") {
-													check(r, hsCase{Host: hi, Proto: pi, Type: ty, Mode: mi, Hook: ki, VH: 1})
+													if r.Quick() && nz > 1 {
+														continue // quick: <=1 deviation among props/ip/backend/secret/uuid
+													}
+													check(r, hsCase{Host: hi, Proto: pi, Type: ty, Mode: mi, Hook: ki, Props: pr, IP: ip, Backend: be, Secret: se, ID: id, Port: po})
+													// the virtual host as the REAL handshake handler stores it: for every port, and for addresses containing ':'
+													if (nz == 0 && strings.Contains(c19Hosts[hi], ":")) || (po > 0 && pr+ip+be+se+id == 0) {
+														check(r, hsCase{Host: hi, Proto: pi, Type: ty, Mode: mi, Hook: ki, VH: 1, Port: po})
+													}
 												}
 											}
 										}
@@ -455,6 +465,6 @@ func TestVerif(t *testing.T) {
 				}
 			}
 		}
-		r.Sample(map[string]any{"client_addresses": len(c19Hosts), "protocols": len(c19Protos), "modes": len(c19Modes), "hooks": c19Hooks, "property_lists": len(c19Props), "player_ips": len(c19IPs), "backend_addresses": len(c19Backends), "uuids": len(c19IDs), "backend_connections_per_player": 2})
+		r.Sample(map[string]any{"client_addresses": len(c19Hosts), "protocols": len(c19Protos), "modes": len(c19Modes), "hooks": c19Hooks, "property_lists": len(c19Props), "player_ips": len(c19IPs), "backend_addresses": len(c19Backends), "uuids": len(c19IDs), "client_ports": c19Ports, "backend_connections_per_player": 2})
 	})
 }
